@@ -84,8 +84,11 @@ PROPS = {
         "clause": "Clause 'every range draw lies within its requested bounds for every width and signedness': random_table::{mask, sign_extend, get, get_range} and testbench::range_bound - for every min/max: u64, "
                   "every width <= 64, both signednesses and every value rand may return, the range handed to rand is non-empty and the returned Value has the handle's width and "
                   "signedness, no x/z, fits the width, and read at (width, signed) lies between the two bounds in either order (Kani, loop-free, complete). "
-                  "Seed derivation derive_seed(base, name) equals FNV-1a-64 over base||name and reads nothing else (bounded in the name length; free-identifier scan of the extracted body).",
-        "assumptions": ["not covered: every scheduling clause of C32 (worker pool, dispatch order, output capture) - schedules are outside this family",
+                  "Seed derivation derive_seed(base, name) equals FNV-1a-64 over base||name and reads nothing else (bounded in the name length; free-identifier scan of the extracted body). "
+                  "Generator table (job range_table, Verus, real bodies with the thread-local turned into a parameter): reset(b) empties the table for every prior state, seed_handle / "
+                  "get_seed_handle / with_rng touch exactly one slot and create it lazily from seed_of(base, handle); lemmas: history independence after reset, handle isolation, explicit seed; "
+                  "client: a test starts from gen_of(seed_of(b, k)) exactly as if the previous test on the same worker had never run.",
+        "assumptions": ["not covered: the worker pool, dispatch order and output capture of cmd_test.rs (schedules are outside this family), that run_testbench calls reset before every test",
                         "assumed: rand's random_range(lo..=hi) returns lo <= r <= hi and is deterministic for a seeded Pcg64; handle widths <= 64 (analyzer rejects wider $tb::random types)",
                         "the call-site glue range_bound (simulator/src/testbench.rs) is under contract: for well-formed <=64-bit argument values whose integer value is representable in the "
                         "handle's type, the draw lies between the argument values; that exec_one calls it for both bounds is read off the code, not proved"],
